@@ -729,3 +729,8 @@ for _u in UNITS:
 
 from . import C09comb     # noqa: E402
 UNITS = UNITS + C09comb.UNITS      # combinators and ParseState.parse against the parser contract (no string theory)
+
+from . import C09readers     # noqa: E402
+UNITS = UNITS + C09readers.UNITS   # tree readers: safety for every tree shape the grammar allows, modular over the reader methods
+DATA = DATA + C09readers.DATA
+TRUSTED = TRUSTED + C09readers.TRUSTED
